@@ -20,21 +20,23 @@ Proof.
   induction t using dtree_ind'; simpl.
   - lia.
   - destruct l as [| x l']; simpl; [lia |].
-    destruct x; simpl; try lia. rewrite app_length. lia.
+    destruct x; simpl; lia.
   - induction l as [| y l' IHl]; simpl; [lia |].
-    pose proof (Forall_inv H) as Hy. specialize (IHl (Forall_inv_tail H)).
-    rewrite app_length. lia.
+    pose proof (Forall_inv H) as Hy. specialize (IHl (Forall_inv_tail H)). simpl in Hy.
+    rewrite !app_length. lia.
 Qed.
 
 Lemma prune_length : forall live t t', prune live t = Some t' -> (length (tree_ids t') <= length (tree_ids t))%nat.
 Proof.
   intros live. induction t using dtree_ind'; intros t' Hp.
   - simpl in Hp. destruct (mem_N g live); inversion Hp; subst. lia.
-  - simpl in Hp. destruct (top_id (TSeq l)); [| discriminate]. destruct (mem_N n live); inversion Hp; subst. lia.
+  - change (prune live (TSeq l)) with
+        (match top_id (TSeq l) with Some id => if mem_N id live then Some (TSeq l) else None | None => None end) in Hp.
+    destruct (top_id (TSeq l)); [| discriminate]. destruct (mem_N n live); inversion Hp; subst. lia.
   - rewrite prune_par in Hp.
     assert (Hl : (length (flat_map tree_ids (prune_list live l)) <= length (flat_map tree_ids l))%nat).
     { clear Hp. induction l as [| c r IH]; simpl; [lia |].
-      specialize (IH (Forall_inv_tail H)). pose proof (Forall_inv H) as Hc.
+      specialize (IH (Forall_inv_tail H)). pose proof (Forall_inv H) as Hc. simpl in Hc.
       destruct (prune live c) as [c' |] eqn:E; simpl; rewrite !app_length.
       - specialize (Hc c' eq_refl). lia.
       - lia. }
@@ -132,7 +134,7 @@ Section Term.
                     end) ts = Some (r', G1)).
       { clear Hw. induction ts as [| t r IH]; [discriminate |].
         simpl in Hd. destruct (task_done t) eqn:Et.
-        - simpl in Hd. destruct (IH (Forall_inv_tail H) (Forall_inv_tail Hts) Hd) as [a [r' [G1 E]]].
+        - simpl in Hd. destruct (IH (Forall_inv_tail H) Hd (Forall_inv_tail Hts)) as [a [r' [G1 E]]].
           exists a. destruct (tstep descs root a t G) as [[[t' G2] f2] |]; [eauto |].
           rewrite E. eauto.
         - destruct (Forall_inv H G (Forall_inv Hts) Et) as [a [t' [G1 [fin E]]]].
